@@ -231,7 +231,7 @@ def generate(rng, tier):
     scn = cs.gen_world(rng, tier, focus='C09')
     if scn.get('borrowers') or rng.random() < 0.5:
         # with borrowers D18 can replace a compiled module by a borrowed copy: keep those worlds single-module-per-file
-        scn['files'] = {}
+        scn['files'] = {k: v for k, v in scn['files'].items() if k in scn.get('file_alias', {})}
         scn.pop('co_only', None)
     # make sure every generated module has at least a chance to be held somewhere
     return scn
